@@ -735,7 +735,38 @@ func (e *Engine) step(s *State, f *Frame, in ssa.Instruction) {
 	case *ssa.ChangeType:
 		f.Locals[x] = e.get(s, f, x.X)
 	case *ssa.Convert:
-		f.Locals[x] = e.convert(s, e.get(s, f, x.X), x.X.Type(), x.Type(), x)
+		v := e.get(s, f, x.X)
+		if sl, ok := v.(SliceV); ok && sl.Obj != 0 {
+			if _, conc := cint(sl.Len); !conc {
+				if b, isStr := x.Type().Underlying().(*types.Basic); isStr && b.Kind() == types.String {
+					// string(bytes) with a symbolic length: one path per feasible length
+					vals, complete := e.enumValues(s, sl.Len, 64)
+					if !complete {
+						unsupp("string conversion of a slice whose length has more than 64 feasible values")
+					}
+					if len(vals) == 0 {
+						s.Status = "infeasible"
+						return
+					}
+					for i, n := range vals {
+						st := s
+						if i > 0 {
+							st = s.Clone()
+						}
+						st.PC = append(st.PC, Eq(sl.Len, I64(n)))
+						pinned := sl
+						pinned.Len = I64(n)
+						st.top().Locals[x] = e.convert(st, pinned, x.X.Type(), x.Type(), x)
+						if i > 0 {
+							e.Pending = append(e.Pending, st)
+						}
+					}
+					s.top()
+					return
+				}
+			}
+		}
+		f.Locals[x] = e.convert(s, v, x.X.Type(), x.Type(), x)
 	case *ssa.MultiConvert:
 		f.Locals[x] = e.convert(s, e.get(s, f, x.X), x.X.Type(), x.Type(), x)
 	case *ssa.MakeInterface:
